@@ -1,9 +1,10 @@
 import BibVerif.Wire.Split
 import BibVerif.Wire.AddAll
+import BibVerif.Wire.Stack
 namespace Bib.Wire
 
 /-- every command the driver understands -/
 def handlers : List (String × Handler) :=
-  splitHandlers ++ addAllHandlers
+  splitHandlers ++ addAllHandlers ++ stackHandlers
 
 end Bib.Wire
